@@ -18,10 +18,12 @@ from harness import core, session, shipped
 FOREST_KW = {"S": 5, "p": 0.125, "r1": 6.0, "r2": 3.0}
 
 
-def child(base, d, oplog, kill_at, asyn, kind, K, f, m, wall_kill=None, resume=False, slow=0.0):
+def child(base, d, oplog, kill_at, asyn, kind, K, f, m, wall_kill=None, resume=False, slow=0.0, sigint=False):
     env = core.env_for_impl(1)
     if slow:
         env["MDPAXV_SLOW_COMMIT"] = str(slow)
+    if sigint:
+        env["MDPAXV_KILL_SIGNAL"] = "INT"
     cmd = [core.PY, str(core.VERIF / "harness" / "crash_child.py"), os.path.join(base, d), oplog, str(kill_at), str(asyn), kind, str(K), str(f), str(m)] + (["resume"] if resume else [])
     if wall_kill is None:
         p = subprocess.run(cmd, env=env, capture_output=True, text=True, timeout=600)
@@ -33,8 +35,11 @@ def child(base, d, oplog, kill_at, asyn, kind, K, f, m, wall_kill=None, resume=F
             break
         time.sleep(0.02)
     time.sleep(wall_kill)
-    p.send_signal(signal.SIGKILL)
-    p.wait()
+    p.send_signal(signal.SIGINT if sigint else signal.SIGKILL)
+    try:
+        p.wait(timeout=120)
+    except subprocess.TimeoutExpired:
+        p.kill(); p.wait()
     return p.returncode
 
 
@@ -74,7 +79,7 @@ def events_of(oplog, ckdir):
 def run(tier, seed):
     res = core.Result("C11")
     res.rule = ("the real checkpointed solve (VI / RVI / periodic / PI on a shipped problem, frequency 1-2, retention 1-2, sync and async) is killed "
-                "with SIGKILL immediately before its N-th Python-level filesystem operation (mkdir, rename, unlink, rmdir: every stage of write, "
+                "with SIGKILL (and, at sampled points, interrupted with SIGINT / Ctrl-C) immediately before its N-th Python-level filesystem operation (mkdir, rename, unlink, rmdir: every stage of write, "
                 "commit and retention deletion) for sampled N (quick) / every N (thorough), and at random wall-clock times; then restore() in a "
                 "fresh process: either the documented clean failure, or iteration = the model's latest committed label for that prefix, values "
                 "bit-identical to the uninterrupted trajectory at that iteration, and continuing reaches the uninterrupted final state. The clean "
@@ -146,8 +151,8 @@ def run(tier, seed):
                     if t[2] in ("rename", "replace") and re.search(r"/\d+\.orbax-checkpoint-tmp[^/]*$", t[3]):
                         commit_ops.append(n)
             if tier == "quick":
-                pts = set(rng.sample(range(1, total + 1), min(12, total)))
-                for c in commit_ops[:3]:
+                pts = set(rng.sample(range(1, total + 1), min(8, total)))
+                for c in commit_ops[:2]:
                     pts.update([c, c + 1])
                 pts.add(1); pts.add(total)
             else:
@@ -159,7 +164,8 @@ def run(tier, seed):
                 mode, val = spec
                 d = f"k_{tagc}_{mode}{str(val).replace('.', '_')}"
                 lg = os.path.join(base, d + ".log")
-                rc_ = child(base, d, lg, val if mode == "op" else 0, asyn, kind, K, f, m, wall_kill=val if mode == "wall" else None, slow=slow)
+                rc_ = child(base, d, lg, val if mode in ("op", "opint") else 0, asyn, kind, K, f, m, wall_kill=val if mode in ("wall", "wallint") else None, slow=slow,
+                            sigint=mode in ("opint", "wallint"))
                 ev_, npre_ = events_of(lg, os.path.join(base, d))
                 rops = [{"op": "basedir", "path": base}, {"op": "restore", "sid": "r", "dir": d, "solver": kind, "id": "p"}]
                 out = core.run_impl(rops, 1)
@@ -177,8 +183,11 @@ def run(tier, seed):
                 leftovers = sorted(os.listdir(os.path.join(base, d))) if os.path.isdir(os.path.join(base, d)) else []
                 return spec, rc_, ev_, rr, cont, has_cfg, leftovers, out[1]["resp"]
 
-            with ThreadPoolExecutor(max_workers=8) as ex:
-                trials = list(ex.map(trial, [("op", p) for p in pts] + [("wall", w) for w in walls]))
+            with ThreadPoolExecutor(max_workers=12) as ex:
+                # Ctrl-C instead of a hard kill: at sampled operations and at wall-clock times inside the solve loop
+                ints = [("opint", p) for p in rng.sample(pts, min(len(pts), 2 if tier == "quick" else 12))] + \
+                       [("wallint", rng.uniform(0.0, 0.6)) for _ in range(2 if tier == "quick" else 10)]
+                trials = list(ex.map(trial, [("op", p) for p in pts] + [("wall", w) for w in walls] + ints))
             lat_lines = core.run_driver([f"accepts evs={','.join(ev) if ev else '-'}" for (_, _, ev, *_rest) in trials])
             for (spec, rc_, ev_, rr, cont, has_cfg, leftovers, raw), ll in zip(trials, lat_lines):
                 res.evaluations += 1
